@@ -275,7 +275,7 @@ def _sheet_entries(rows, blocks, top=True):
         elif t == "block":
             assert top, "nested blocks are not generated"
             sub_pre, sub = _sheet_entries(blocks[r["block"]], blocks, top=False)
-            pre.append(["block", sub_pre])
+            pre += sub_pre   # since fix F-C06-a: inserted blocks record on the container itself
             nodes += sub
     return pre, nodes
 
